@@ -646,6 +646,9 @@ def _initialize_next_period_state_vars(network, period):
 		for s in n.successor_indices(include_external=True):
 			# Loop through products at this node.
 			for prod_index in n.product_indices:
+				# (The external customer only has a pipeline for the products that have a demand source.)
+				if prod_index not in n.state_vars[period].inbound_order_pipeline[s]:
+					continue
 				n.state_vars[period + 1].inbound_order_pipeline[s][prod_index] = \
 					n.state_vars[period].inbound_order_pipeline[s][prod_index][1:] + [0]
 
